@@ -216,6 +216,11 @@ def parse_eval_lists(out):
 
 # --------------------------------------------------------------------------- float <-> Coq literal
 
+def ckpt_name(stem, i) -> str:
+    """Checkpoint file names as users write them: lower case, capitalised run names, upper-case extensions (all accepted by aspire)."""
+    return [f"{stem}.h5", f"{stem.capitalize()}_Run.H5", f"GW_{stem}.hdf5", f"{stem}_Final.HDF5"][i % 4]
+
+
 def fhex(x: float) -> str:
     """Python float -> Coq PrimFloat literal (bit exact)."""
     import math
